@@ -31,6 +31,7 @@ structure RState where
   faultOn : Bool := false              -- C14: a directory fault is armed
   appliedAtFault : Nat := 0
   needCover : Option Nat := none       -- C14: after the fault cleared, the next acknowledgement must cover this many batches
+  crashed : Bool := false              -- the chain contains a crash
 
 /-! ## contents -/
 
@@ -102,10 +103,11 @@ def parseSnapSpec (s : String) : Option (Option Torn) :=
 /-! ## the image oracle -/
 
 /-- the model's answer for a crash image: what OpenReader and OpenWriter (+ one more batch) return -/
-def expectImage (r : RState) (s' : State) : String :=
+def expectImage (r : RState) (s' : State) (probe : Bool) : String :=
+  let p := if probe then ";p=1" else ""
   match s'.disk.recover with
-  | some f => let c := showContent (absAfter r f.k); s!"rd=ok:{c} wr=ok:{c};p=1"
-  | none => if s'.disk.snaps.isEmpty then "rd=err wr=ok:-;p=1" else "rd=err wr=err"
+  | some f => let c := showContent (absAfter r f.k); s!"rd=ok:{c} wr=ok:{c}{p}"
+  | none => if s'.disk.snaps.isEmpty then s!"rd=err wr=ok:-{p}" else "rd=err wr=err"
 
 /-- one side (`rd=…` / `wr=…`) of the implementation's answer -/
 inductive Side
@@ -218,7 +220,7 @@ def stepLine (r : RState) (op impl : String) : RState × String :=
           match crashTo r.d.s sn sg with
           | none => (r, answer "REJECT:crash-image-not-possible-in-the-model" (spec.getD "ok") [])
           | some s' =>
-              let m := expectImage r s'
+              let m := expectImage r s' (hasFlag rest "probe=1")
               let brs := ["image", if r.d.obs.isEmpty then "image-before-ack" else "image-after-ack", s!"img-snap-{snap}"] ++
                 (if sg.any (·.2 == .torn) then ["img-seg-torn"] else []) ++
                 (if sg.any (·.2 == .full) then ["img-seg-full"] else []) ++
@@ -235,9 +237,16 @@ def stepLine (r : RState) (op impl : String) : RState × String :=
           match crashTo r.d.s sn sg with
           | none => ({ r with d := { r.d with sync := false } }, answer "REJECT:crash-not-possible-in-the-model" "ok" [])
           | some s' =>
-              ({ r with d := { r.d with s := s', commits := [] }, pendingAsync := 0, expectNack := [], faultOn := false, needCover := none },
+              ({ r with d := { r.d with s := s', commits := [] }, pendingAsync := 0, expectNack := [], faultOn := false, needCover := none, crashed := true },
                answer (showState s') "ok" ["crash", s!"crash-snap-{snap}"] )
       | _, _ => (r, answer "bad-op" "na" [])
+  | ["open"] =>
+      -- Lock() succeeded; OpenWriter as a whole is ONE event of the model. When the model refuses (snapshot files exist and
+      -- none loads) the real OpenWriter must fail too: the `openfail` record follows
+      if r.d.sync && (step r.d.s .openWriter).isNone then (r, answer (showState r.d.s) "ok" ["open-refused"])
+      else
+        let (d, a) := Drv.stepLine r.d op impl
+        ({ r with d := d }, a)
   | ["asyncerr", "persister"] =>
       if !r.d.sync then (r, answer impl "na" ["desync"]) else
       if r.pendingAsync == 0 then (r, answer "REJECT:async-error-without-failed-persist" "ok" [])
@@ -280,7 +289,15 @@ def stepLine (r : RState) (op impl : String) : RState × String :=
         | _ => (impl, none)
       let (d, a) := Drv.stepLine r.d op base
       let r := { r with d := d }
+      -- after a crash the clients of the dead writer may not have SEEN an acknowledgement the persister had released:
+      -- what was observed must be among what the model released
+      let implAcked := match ((base.splitOn " ").find? (·.startsWith "acked=")) with
+        | some w => parseList (w.drop 6).toString
+        | none => none
       let res := ansResult a
+      let res := match r.crashed, implAcked with
+        | true, some l => if l.all (sortDedup r.d.s.acked).contains then res.replace s!"acked={showList (sortDedup r.d.s.acked)}" s!"acked={showList l}" else res
+        | _, _ => res
       let res := match extra with
         | some _ => res ++ s!" asyncerrs={r.asyncSeen + r.pendingAsync}"
         | none => res
@@ -295,6 +312,10 @@ def stepLine (r : RState) (op impl : String) : RState × String :=
       let pre := r.d.s
       let (d, a) := Drv.stepLine r.d op impl
       let r := { r with d := d }
+      -- every violation that follows a Persist which returned nil without leaving the exact bytes is a consequence of that
+      let a := if r.inexact && (ansVerdict a).startsWith "bad" && !((ansVerdict a).startsWith "bad:assumption-persist-exact") then
+          setAns a (ansResult a) (ansVerdict a ++ " after-inexact-persist" ++ (if r.reissued.isEmpty then "" else " reissued-over-torn"))
+        else a
       match ws with
       | ["snapbegin", e, _, _] =>
           (match e.toNat? with
